@@ -78,6 +78,9 @@ class Repo:
                 tree = ast.parse(src, filename=str(p))
             except SyntaxError as e:
                 raise AnalysisError(f"syntax error in {rel}: {e}")
+            if not os.environ.get("SA_NO_NORM"):
+                from .normalise import normalise
+                tree = normalise(tree)
             m = Module(name, p, str(rel), src, tree)
             self.modules[name] = m
         self.renames_undone: List[str] = []
